@@ -496,6 +496,7 @@ func lineSlug(loc string, full string) string {
 // running one connection through the real Run()
 
 type connRun struct {
+	tickOff      time.Duration
 	noDrain      bool // scripted: the node's main thread is busy, queues are not read
 	backpressure int
 	n            *nodeEnv
@@ -818,8 +819,24 @@ func (r *connRun) evName(cs *Case, i int) string {
 		return e.Cmd
 	case "raw":
 		return "raw-frame"
+	case "pong":
+		return "pong"
 	}
 	return e.T
+}
+
+// flushOutput waits until the writing thread has handed everything the node queued so
+// far to the connection (so that a ping the node just sent is visible to the "peer").
+func (r *connRun) flushOutput() {
+	for i := 0; i < 10000; i++ {
+		var ci network.ConnInfo
+		r.c.GetStats(&ci)
+		if ci.BytesToSend == 0 || network.VerifOutcome(r.c).Broken {
+			return // (a broken connection's writing thread has stopped: nothing more will come)
+		}
+		network.VerifKick(r.c)
+		time.Sleep(200 * time.Microsecond)
+	}
 }
 
 var trace = os.Getenv("C18_TRACE") != ""
@@ -959,8 +976,57 @@ func runNet(n *nodeEnv, cs *Case) (res Result) {
 			}
 			res.Handled++
 			continue
+		case "pong":
+			// answer to the node's own ping: the nonce is whatever the node wrote
+			r.flushOutput()
+			pgs := pc.sentPings()
+			var pl []byte
+			if len(pgs) > 0 {
+				pl = append(pl, pgs[len(pgs)-1]...)
+			} else {
+				pl = []byte{0x70, 0x6f, 0x6e, 0x67, 0x2d, 0x6e, 0x6f, 0x6e} // no ping was sent: any 8 bytes
+			}
+			switch e.Cmd {
+			case "match":
+			case "stale":
+				if len(pgs) > 1 {
+					pl = append(pl[:0], pgs[len(pgs)-2]...)
+				} else {
+					pl[0] ^= 1
+				}
+			case "short":
+				pl = pl[:4]
+			case "long":
+				pl = append(pl, 0)
+			default:
+				ev.HarnessError("unknown pong kind %q", e.Cmd)
+			}
+			pc.feed(wire("pong", pl), false, false, false)
 		case "tick":
-			c.Tick(time.Now())
+			// Cmd "+16s": the node's clock is that much further each time (peer ping
+			// period 15 s, no-data time-out 60 s)
+			if e.Cmd != "" {
+				d, err := time.ParseDuration(strings.TrimPrefix(e.Cmd, "+"))
+				if err != nil {
+					ev.HarnessError("bad tick offset %q", e.Cmd)
+				}
+				r.tickOff += d
+			}
+			if v := func() (v *Violation) {
+				defer func() {
+					if p := recover(); p != nil {
+						st := string(debug.Stack())
+						fn, loc, _ := site(st, true)
+						held := r.heldLocks()
+						v = &Violation{Key: "net/Tick/panic@" + fn + ":" + normMsg(fmt.Sprint(p)) + heldSuffix(held), Stack: st,
+							What: fmt.Sprintf("OneConnection.Tick panicked: %v at %s (%s)", p, fn, loc)}
+					}
+				}()
+				c.Tick(time.Now().Add(r.tickOff))
+				return nil
+			}(); v != nil {
+				return fail(i, v)
+			}
 			scriptedTicks++
 			if v := r.after(cs, i); v != nil {
 				return fail(i, v)
@@ -1024,6 +1090,9 @@ func runNet(n *nodeEnv, cs *Case) (res Result) {
 	sort.Strings(cn)
 	res.Outcome = fmt.Sprintf("ban=%s why=%s mis=%d ver=%v b2g=%d bip=%d mp=%d/%d [%s]", o.BanReason, strings.SplitN(o.WhyDisc, ":", 2)[0], o.Misbehave, o.VersionReceived, network.VerifB2GCount(), o.BlocksInProgress,
 		len(txpool.TransactionsToSend), len(txpool.TransactionsRejected), strings.Join(cn, " "))
+	if n := ci.PingSentCnt; n > 0 || common.CounterGet("PongOK")+common.CounterGet("PongMismatch") > 0 {
+		res.Outcome += fmt.Sprintf(" pings=%d pongok=%d pongbad=%d pongtmo=%d ghpong=%d", n, common.CounterGet("PongOK"), common.CounterGet("PongMismatch"), common.CounterGet("PongTimeout"), common.CounterGet("GetHeadersPong"))
+	}
 	if r.backpressure > 0 || common.CounterGet("TxChannelFULL") > 0 {
 		res.Outcome += fmt.Sprintf(" backpressure=%d txq-full-drops=%d", r.backpressure, common.CounterGet("TxChannelFULL"))
 	}
